@@ -25,14 +25,17 @@ type rl = []func(*Run)
 
 var properties = map[string]propSpec{
 	"C01": {Rules: rl{ruleMutateRelay, ruleCascade}, Keep: []string{"C1", "E4"}},
-	"C02": {Rules: rl{ruleMutateRelay, ruleAnswers, ruleSenderExcluded, ruleDecoratorForward}, Keep: []string{"C1", "B5", "C2", "A2"}},
+	"C02": {Rules: rl{ruleMutateRelay, ruleAnswers, ruleSenderExcluded, ruleDecoratorForward, ruleBroadcastShape}, Keep: []string{"C1", "B5", "C2", "A2", "C3"}},
 	"C03": {Rules: rl{ruleSenderExcluded, ruleJoinedGuard, rulePairedState, ruleDispatchTotal, ruleAnswers}, Keep: []string{"J1", "J2", "E9", "A1", "B5"}},
 	"C04": {Rules: rl{ruleDispatchTotal, ruleAnswers, ruleJoinedGuard, ruleDecoratorForward}},
-	"C05": {Rules: rl{ruleOwnerGuard, ruleAnswers, ruleSenderExcluded}, Keep: []string{"D1", "B5", "J1"}},
+	"C05": {Rules: rl{ruleOwnerGuard, ruleAnswers, ruleSenderExcluded, ruleIDGenerator}, Keep: []string{"D1", "B5", "J1", "D3"}},
 	"C06": {Rules: rl{ruleLeaveComplete, ruleLeaveCallers, ruleModuleCleanup, ruleCascade, ruleDecoratorForward, ruleMutateRelay}, Keep: []string{"E1", "E2", "E3", "E4", "E6", "E9", "A2", "C1"}},
 	"C07": {Rules: rl{ruleLeaveComplete, ruleLeaveCallers}, Keep: []string{"E1", "E2", "E6"}},
 	"C08": {Rules: rl{ruleDecoratorForward}, Keep: []string{"A2"}},
-	"C12": {Rules: rl{ruleCascade}, Keep: []string{"E4"}},
-	"C13": {Rules: rl{ruleNotifyGated, ruleSenderExcluded}, Keep: []string{"C5", "C2"}},
+	"C10": {Rules: rl{ruleIDGenerator, ruleStoreContracts}, Keep: []string{"D3", "D4"}},
+	"C12": {Rules: rl{ruleStoreContracts, ruleCascade}, Keep: []string{"S-", "D4", "E4"}},
+	"C13": {Rules: rl{ruleNotifyGated, ruleSenderExcluded, ruleSubscriptions}, Keep: []string{"C5", "C2", "S-"}},
+	"C14": {Rules: rl{ruleBroadcastShape, ruleSenderExcluded}, Keep: []string{"C3", "J6", "C2"}},
 	"C17": {Rules: rl{ruleFlagWrap}},
+	"X":   {Rules: rl{ruleStoreContracts, ruleSubscriptions, ruleIDGenerator, ruleBroadcastShape}},
 }
